@@ -33,6 +33,10 @@ CLAIMED = {
          NOTE % "ToJSON order (C11), Each (C14).", "DESIGN.md §4 C09"),
  "C10": (GENERIC % "HashBidiMap (all operations) and TreeBidiMap (Get/GetKey/Remove/Clear/Size/Keys/Values): the two inner maps are mutual inverses as a representation invariant.",
          NOTE % "TreeBidiMap.Put (stated, not verified).", "DESIGN.md §4 C10"),
+ "C11": (GENERIC % "ToJSON/MarshalJSON and FromJSON/UnmarshalJSON of 17 containers (three lists, three sets, four stack/queue wrappers, ring, heap, priority queue, hash map, red-black tree, tree map, hash bidimap) against a ghost model of encoding/json (content of a byte string as a function of the slice; Marshal attaches it, Unmarshal reads it): ToJSON yields an array/object whose content is the abstract view, FromJSON of that content yields the same view — the round trip is the composition of the two postconditions.",
+         NOTE % "A-JSON (the assumed contract of encoding/json, incl. JSON-representable elements); LinkedHashMap (two known findings: outside the verified subset and genuinely defective), AVLTree, BTree, TreeBidiMap JSON.", "DESIGN.md §4 C11/C12"),
+ "C12": (GENERIC % "FromJSON of the same 17 containers: on success the content is exactly what the document denotes (sets deduplicate, trees sort, ring keeps the last capacity-many values, heap order is restored, bidimap stays one-to-one) and the representation invariant holds (so every other contract applies afterwards, including after null, [] and {}); on error the abstract state is unchanged (atomicity).",
+         NOTE % "A-JSON; LinkedHashMap.FromJSON (known finding), AVLTree, BTree, TreeBidiMap.", "DESIGN.md §4 C11/C12"),
  "C13": (GENERIC % "HashSet, LinkedHashSet and TreeSet Intersection/Union/Difference: exact membership, operands unchanged (frame), result freshly allocated with the operands' comparator; identical-operand case included.",
          NOTE % "none of the nine operations.", "DESIGN.md §4 C13"),
  "C15": (GENERIC % "Size/Empty/Values/Clear agreement for the containers under contract so far (ring, array list/stack/queue, hash map/set/bidimap, heap, priority queue, doubly linked list).",
